@@ -129,27 +129,29 @@ TEMPLATES_THOROUGH = [
 
 
 # Stress sequences for totality ("in bounded time"): long repetitive argument lists on which a backtracking or re-scanning scanner needs
-# super-linear work.  Fixed token trees, symbolic spacing; the per-path step budget and a native 10 s limit decide.
+# super-linear work.  Fixed token trees and spacing (one path each); the per-path step budget and a native 10 s limit decide.
 STRESS = [" ".join(["a <"] * 28), " ".join(["<"] * 40), " ".join(["a |"] * 28), " ".join(["|"] * 40), " ".join([":: <"] * 16),
           " ".join(["a :: < a ,"] * 8), " ".join(["< a s a <"] * 8), " ".join([">"] * 40), " ".join(["a ,"] * 24), " ".join(["a = a < a |"] * 8),
           " ".join(["a <"] * 14 + ["a >"] * 14), " ".join(["| a <"] * 14)]
 
 
-def template_fixed(t):
-    """-> (n, [(pos, kind, ch, keyword)] for the fixed token trees; `::` is two puncts, the first Joint)"""
-    fixed, joints, pos = [], [], 0
+def template_fixed(t, spacing=False):
+    """-> (n, [(pos, kind, ch, keyword, joint-or-None)] for the fixed token trees; a multi-character word is that many puncts.
+    spacing=True also fixes the spacing as written (glued inside a word, Alone at its end): used for the stress sequences, where a
+    symbolic spacing on every `:` would make the *exploration* exponential"""
+    fixed, pos = [], 0
     for w in t.split():
         if w == "?":
             pos += 1
         elif w == "a":
-            fixed.append((pos, K_IDENT, ord("a"), 0)); pos += 1
+            fixed.append((pos, K_IDENT, ord("a"), 0, None)); pos += 1
         elif w == "s":
-            fixed.append((pos, K_IDENT, ord("s"), 1)); pos += 1
+            fixed.append((pos, K_IDENT, ord("s"), 1, None)); pos += 1
         elif w == "g":
-            fixed.append((pos, K_GROUP, ord("("), 0)); pos += 1
+            fixed.append((pos, K_GROUP, ord("("), 0, None)); pos += 1
         else:
-            for ch in w:
-                fixed.append((pos, K_PUNCT, ord(ch), 0)); pos += 1
+            for i, ch in enumerate(w):
+                fixed.append((pos, K_PUNCT, ord(ch), 0, (1 if i + 1 < len(w) else 0) if spacing else None)); pos += 1
     return pos, fixed
 
 
@@ -196,7 +198,7 @@ def explore(tier, prop, passes=None, templates=None):
     if templates is None:
         templates = (TEMPLATES + (TEMPLATES_THOROUGH if tier == "thorough" else [])) if prop == "C16" else STRESS
     for t in templates:
-        n, fixed = template_fixed(t)
+        n, fixed = template_fixed(t, spacing=(prop != "C16"))
         jobs.append(("template `%s`" % (t if len(t) < 60 else t[:40] + " ... (%d token trees)" % n), FULL if prop == "C16" else ANY, n, fixed))
     if templates:
         res["passes"].append({"name": "templates", "alphabet": FULL["text"], "templates": templates,
@@ -227,7 +229,8 @@ def explore(tier, prop, passes=None, templates=None):
             if n:
                 st.pc.append(valid_constraint(z3, bs, n, al, "any" if mode == 2 else "lexer"))
                 if fixed:
-                    st.pc.append(z3.And(*[z3.And(bs[4 * q] == k, bs[4 * q + 1] == c, bs[4 * q + 3] == w) for q, k, c, w in fixed]))
+                    st.pc.append(z3.And(*[z3.And(bs[4 * q] == k, bs[4 * q + 1] == c, bs[4 * q + 3] == w, *([bs[4 * q + 2] == j] if j is not None else []))
+                                          for q, k, c, w, j in fixed]))
 
         def describe(kind, detail, st, m, bs=bs, n=n, digest_base=digest_base, pname=pname):
             inp = [m.eval(x, model_completion=True).as_long() for x in bs] if m is not None else None
